@@ -37,6 +37,10 @@ THEOREMS = [
         "filter_mono", "fp_label_passes", "unknown_uses_mean", "resultTarget_iff", "filterResults_both",
         "filterResults_idem", "no_exception_in_contract", "dist_encoding_sound", "frame_invariant",
         "filter_frame_invariant",
+        # decision table of _is_target_object, regenerated from the source on every run (harness/dt_c10.py)
+        "isTarget_table_check", "isTarget_code_table_eq_model", "isTarget_all_valuations_consistent",
+        "isTarget_eq_skeleton", "isTarget_code_table_eq_isTarget", "table_iff_criteria", "table_fp_label_passes",
+        "table_unknown_uses_mean", "table_no_exception_in_contract",
     ]
 ]
 RULE = (
@@ -49,12 +53,21 @@ RULE = (
     "at least one object with at least one criterion configured; distinct = distinct canonical JSON of the case"
 )
 TRUSTED = [
+    "decision-table translator (harness/dtable.py, harness/dt_c10.py): the symbolic stubs stand for DynamicObject / "
+    "DynamicObject2D (get_distance_bev, pointcloud_num), Label (is_fp, is_unknown, contains_any), list (in, index, [], "
+    "truthiness, np.mean incl. nan on []) and TransformDict.transform (identity for src == dst, KeyError when no matrix) "
+    "as atoms; the modules under test are executed from their current source with the single rewrite `a is b` -> "
+    "`__dt_is__(a, b)` (identity tests cannot be intercepted by an object); what the stubs abstract is covered by the "
+    "correspondence runs on real objects",
     "numpy mean / math.hypot / np.linalg.inv / pyquaternion rotation matrices are compared with exact rational "
     "arithmetic; decisions closer than 1e-7 to a bound (other than exact ties in untransformed coordinates) are not judged",
     "the ego-relative position handed to the Lean model is the output of the real TransformDict.transform (converted "
     "exactly); its correctness is checked by the oracle's exact rigid motion, not by the model",
 ]
 ASSUMPTIONS = [
+    "decision table: order atoms of different pairs of terms (and Boolean atoms) are treated as independent - an "
+    "over-approximation of the input space, sound for 'table = model'; when the source leaves the abstraction the table "
+    "is marked untranslatable (branch key table:untranslatable) and only the correspondence ties model and code",
     "contract of the docstrings: per-label lists have the length of a non-empty target_labels; objects are complete "
     "(position, point count, registered transform). Outside it the Python exceptions (TypeError, IndexError, "
     "AssertionError, AttributeError, KeyError) are modelled and compared, but the oracle makes no kept-set claim",
@@ -399,6 +412,7 @@ def model_requests(case, out):
 
 
 MODEL_BRANCHES = Counter()
+_TABLE_NOTED = []
 NEAR = Counter()
 
 
@@ -415,8 +429,29 @@ def _note_model_branches(resps):
             MODEL_BRANCHES["filter:returns"] += 1
 
 
+def _table_note():
+    """one histogram key about the decision table of this run"""
+    try:
+        from .. import dt_c10
+
+        if "tree" not in dt_c10.LAST and "untranslatable" not in dt_c10.LAST:
+            dt_c10.generate_lean()
+        if "untranslatable" in dt_c10.LAST:
+            return "table:untranslatable", {"untranslatable": dt_c10.LAST["untranslatable"]}
+        info = dict(dt_c10.LAST.get("info", {}))
+        d = dt_c10.table_disagreements()
+        info["valuations_where_table_and_model_differ"] = [
+            {"valuation": {a: (o if isinstance(o, str) else bool(o)) for a, o in asg.items()}, "code_table": cr, "model": mr}
+            for asg, cr, mr in d[:5]]
+        return ("table:differs-from-model" if d else "table:equals-model"), info
+    except Exception as e:  # noqa: BLE001 - a note must never break the check
+        return "table:untranslatable", {"untranslatable": f"{type(e).__name__}: {e}"}
+
+
 def extra_evidence():
-    return {"model_branches": dict(sorted(MODEL_BRANCHES.items())),
+    key, info = _table_note()
+    return {"decision_table_is_target_object": dict(info, status=key),
+            "model_branches": dict(sorted(MODEL_BRANCHES.items())),
             "objects_excluded_near_float_boundary": NEAR["objects"],
             "cases_with_an_excluded_object": NEAR["cases"]}
 
@@ -741,6 +776,11 @@ def oracle(case, out):
 
 def branches(case, out):
     br = []
+    if case.get("mode") == "table-witness":
+        br.append("table:witness-case")
+    if not _TABLE_NOTED:
+        _TABLE_NOTED.append(1)
+        br.append(_table_note()[0])
     kind = case["kind"]
     P = case["params"]
     objs = case["objects"] + case.get("estimates", []) if kind != "results" else \
@@ -1056,9 +1096,21 @@ def _gen_case(rng, kind):
     return case
 
 
+def table_witnesses():
+    """cases realising the valuations on which the regenerated decision table of `_is_target_object` and the model
+    skeleton differ (empty on an unchanged tree): they go FIRST, so a broken table theorem leads straight to its input"""
+    try:
+        from .. import dt_c10
+
+        return dt_c10.witness_cases()
+    except Exception:  # noqa: BLE001
+        return []
+
+
 def generate(rng, tier):
     n_obj, n_res, n_mgr = (2600, 450, 150) if tier == "quick" else (22000, 3500, 1200)
-    cases = [_gen_case(rng, "objects") for _ in range(n_obj)]
+    cases = table_witnesses()
+    cases += [_gen_case(rng, "objects") for _ in range(n_obj)]
     cases += [_gen_case(rng, "results") for _ in range(n_res)]
     cases += [_gen_case(rng, "manager") for _ in range(n_mgr)]
     return cases
@@ -1227,4 +1279,4 @@ def shrink(case):
 
 
 def search(rng, st, disagreements):
-    return [_gen_case(rng, k) for k in ["objects"] * 3000 + ["results"] * 500 + ["manager"] * 100]
+    return table_witnesses() + [_gen_case(rng, k) for k in ["objects"] * 3000 + ["results"] * 500 + ["manager"] * 100]
